@@ -80,6 +80,17 @@ inline bool checkAccess(State &S, const Val &p, i128 nlo, i128 nhi, bool write, 
   return true;
 }
 
+// reads of bytes that were never written since the object came to life (indeterminate content)
+inline void checkInit(State &S, const Val &p, i128 nlo, i128 nhi, const Instruction *I, const char *what) {
+  if (p.k != Val::PTR || p.reg < 0 || nlo <= 0) return;
+  Region &R = S.regions[p.reg];
+  if (!R.d || !R.d->trackInit) return;
+  i128 olo, ohi; offsetBounds(S, p, olo, ohi);
+  if (olo != ohi) return;                       // only exact addresses: no false alarms from blurred offsets
+  int64_t u = R.d->firstUnwritten(olo, olo + nlo);
+  if (u >= 0) alarm(S, "UNINIT", I, std::string(what) + ": reads " + R.name + "[" + i128s(u) + "], which this call has never written (result would depend on the object's previous content)");
+}
+
 inline ByteCell cellOfVal(const Val &v, unsigned byteIdx) {
   ByteCell c; c.cs.reset(); c.prov = v.prov;
   if (v.k == Val::INT && v.isConst()) { APInt a = v.constVal(); c.cs.set((size_t)a.extractBitsAsZExtValue(8, byteIdx * 8)); return c; }
@@ -173,6 +184,7 @@ inline Val doLoad1(State &S, const Val &p, Type *ty, const Instruction *I) {
   unsigned w = ty->isIntegerTy() ? ty->getIntegerBitWidth() : 64;
   auto dflt = [&]() { return ty->isIntegerTy() ? Val::top(w, P_OTHER) : Val::unk(); };
   if (!checkAccess(S, p, n, n, false, I, "load")) return dflt();
+  checkInit(S, p, n, n, I, "load");
   Region &R = S.regions[p.reg];
   if (R.kind == RK_ERRNO) return S.errnoSet ? S.errnoVal : Val::top(32);
   i128 olo, ohi; offsetBounds(S, p, olo, ohi);
@@ -238,6 +250,7 @@ inline void doCopy(State &S, const Val &dst, const Val &src, Val n, const Instru
   if (nhi == 0) return;
   bool ok1 = checkAccess(S, dst, nlo, nhi, true, I, what, n.root, n.rk, n.croot, n.ck);
   bool ok2 = checkAccess(S, src, nlo, nhi, false, I, what, n.root, n.rk, n.croot, n.ck);
+  if (ok2) checkInit(S, src, nlo, nhi, I, what);
   if (!ok1 || dst.k != Val::PTR || dst.reg < 0) return;
   Region &RD = S.regions[dst.reg];
   ensureTracked(S, RD);
@@ -283,7 +296,8 @@ inline void doSet(State &S, const Val &dst, const Val &c, Val n, const Instructi
   Val c8 = c; if (c8.k == Val::INT && c8.w > 8) { int nc; c8 = castop(S, Instruction::Trunc, c8, 8, Type::getInt8Ty(M->getContext())); (void)nc; }
   ByteCell cell = cellOfVal(c8, 0);
   { bool isNul = cell.cs.count() == 1 && cell.cs[0] && nlo >= 1;
-    if (isNul) D.noteWrite(dlo, dhi + 1, true); else D.noteWrite(dlo, dhi + std::min(nhi, (i128)1 << 40), false); }
+    if (isNul) D.noteWrite(dlo, dhi + 1, true); else D.noteWrite(dlo, dhi + std::min(nhi, (i128)1 << 40), false);
+    D.addWritten(dlo, dhi + std::min(nhi, (i128)1 << 40)); }
   eraseScalars(D, dlo, dhi + nhi);
   i128 cap = (i128)1 << 40;
   if (dlo == dhi) { D.fillRange(dlo, dlo + std::min(nlo, cap), cell); if (nhi > nlo) D.joinRange(dlo + nlo, dlo + std::min(nhi, cap), cell); }
